@@ -99,21 +99,24 @@ func drawHeaderValue(t *rapid.T, h *sebufhttp.Header, label string) headerValue 
 // effectiveHeaders merges service and method declarations: a method-level declaration replaces
 // a service-level one of the same name. Names differing only in case are reported as ambiguous.
 func effectiveHeaders(svc, method []*sebufhttp.Header) (eff []*sebufhttp.Header, ambiguous bool) {
+	// HTTP header names are case-insensitive: declarations are merged by lower-cased name, later
+	// declarations (method level after service level) replace earlier ones. ambiguous reports that two
+	// declarations of one header are spelled differently.
 	byName := map[string]*sebufhttp.Header{}
-	lower := map[string]string{}
 	var order []string
 	add := func(h *sebufhttp.Header) {
 		if h.GetName() == "" {
 			return
 		}
-		if prev, ok := lower[strings.ToLower(h.GetName())]; ok && prev != h.GetName() {
-			ambiguous = true
+		k := strings.ToLower(h.GetName())
+		if prev, ok := byName[k]; ok {
+			if prev.GetName() != h.GetName() {
+				ambiguous = true
+			}
+		} else {
+			order = append(order, k)
 		}
-		lower[strings.ToLower(h.GetName())] = h.GetName()
-		if _, ok := byName[h.GetName()]; !ok {
-			order = append(order, h.GetName())
-		}
-		byName[h.GetName()] = h
+		byName[k] = h
 	}
 	for _, h := range svc {
 		add(h)
@@ -136,7 +139,7 @@ func headerHazard(e *engine, info *RPCInfo, res *Result) string {
 	}
 	for _, mh := range info.MethodHeaders {
 		for _, sh := range info.SvcHeaders {
-			if mh.GetName() == sh.GetName() && sh.GetRequired() && !mh.GetRequired() && e.avoid("header_override_drops_required") {
+			if strings.EqualFold(mh.GetName(), sh.GetName()) && sh.GetRequired() && !mh.GetRequired() && e.avoid("header_override_drops_required") {
 				res.excluded(e.cfg.Avoid["header_override_drops_required"] + ":header_override_drops_required")
 				return "method-level optional override of a required service header"
 			}
@@ -165,15 +168,10 @@ func buildC09(e *engine, p *rt.Package) {
 					res.Skipped = "RPC without declared headers"
 					return func(t *rapid.T) {}
 				}
-				if ambiguous {
-					res.Skipped = "service and method headers differ only in case (override semantics undocumented)"
-					res.Unspecified++
-					return func(t *rapid.T) {}
-				}
 				overridden := false
 				for _, mh := range info.MethodHeaders {
 					for _, sh := range info.SvcHeaders {
-						if mh.GetName() == sh.GetName() {
+						if strings.EqualFold(mh.GetName(), sh.GetName()) {
 							overridden = true
 							if sh.GetRequired() && !mh.GetRequired() && e.avoid("header_override_drops_required") {
 								res.Skipped = "method-level optional override of a required service header"
@@ -182,6 +180,9 @@ func buildC09(e *engine, p *rt.Package) {
 							}
 						}
 					}
+				}
+				if ambiguous {
+					res.class("override:case_variant")
 				}
 				if srv == nil {
 					srv = newServer(p, false)
@@ -223,7 +224,7 @@ func buildC09(e *engine, p *rt.Package) {
 						}
 						switch hv.Class {
 						case "reject":
-							offending = append(offending, h.GetName())
+							offending = append(offending, strings.ToLower(h.GetName()))
 						case "grey":
 							grey = true
 						}
@@ -267,11 +268,11 @@ func buildC09(e *engine, p *rt.Package) {
 						}
 						var got []string
 						for _, v := range vs {
-							got = append(got, v.GetField())
+							got = append(got, strings.ToLower(v.GetField()))
 						}
 						sort.Strings(got)
 						if strings.Join(got, "|") != strings.Join(offending, "|") {
-							t.Fatalf("%s: expected one violation per offending header %v (decided before the body is read), got %v", desc, offending, got)
+							t.Fatalf("%s: expected one violation per offending header %v (names compared case-insensitively; decided before the body is read), got %v", desc, offending, got)
 						}
 						return
 					}
